@@ -530,12 +530,17 @@ def shared_arguments(d):
     z_a = 100.0 + 2.0 * np.arange(ns)
     runs = [('A (explicit axes)', dict(ilines=il_a, xlines=xl_a, samples=z_a), il_a.tolist(), xl_a.tolist(), z_a.tolist()),
             ('B (default axes, same header dict)', {}, list(range(n_il)), list(range(n_xl)), None),
-            ('C (explicit axes again, same header dict)', dict(ilines=il_a + 7, xlines=xl_a, samples=z_a), (il_a + 7).tolist(), xl_a.tolist(), z_a.tolist())]
+            ('C (explicit axes again, same header dict)', dict(ilines=il_a + 7, xlines=xl_a, samples=z_a), (il_a + 7).tolist(), xl_a.tolist(), z_a.tolist()),
+            # ... and without any header dict: whatever the converter uses by default must not be shared between converters
+            ('D (explicit axes, no header dict)', dict(ilines=il_a, xlines=xl_a, samples=z_a, _nohdr=True), il_a.tolist(), xl_a.tolist(), z_a.tolist()),
+            ('E (default axes, no header dict)', dict(_nohdr=True), list(range(n_il)), list(range(n_xl)), None)]
     for name, kw, want_il, want_xl, want_z in runs:
+        kw = dict(kw)
+        hkw = {} if kw.pop('_nohdr', False) else {'trace_headers': hdrs}
         p = os.path.join(d, 'shared.sgz')
         inp = {'route': 'numpy, shared header dict', 'shape': [n_il, n_xl, ns], 'conversion': name}
         try:
-            with NumpyConverter(rnd_cube(rng, (n_il, n_xl, ns)), trace_headers=hdrs, **kw) as c:
+            with NumpyConverter(rnd_cube(rng, (n_il, n_xl, ns)), **hkw, **kw) as c:
                 quiet(c.run, p, bits_per_voxel=8)
             with SgzReader(p) as r:
                 got_il, got_xl, got_z = [int(v) for v in r.ilines], [int(v) for v in r.xlines], [float(v) for v in r.zslices]
